@@ -576,3 +576,25 @@ func JournalEnd() {
 	i, _ := Shard()
 	_ = os.Remove(filepath.Join(WorkDir(), fmt.Sprintf("journal-%d.json", i)))
 }
+
+// Confirm wraps a run function so that a failure is reported only if the
+// identical case fails on every one of `times` further attempts (DESIGN §2.6:
+// outcomes that can depend on the hard-wired real-time constants of the code
+// under test — 10 ms Escape timer, 50 ms cursor-position timeout — are
+// re-confirmed; a deterministic defect survives this, a scheduling hiccup on a
+// loaded machine does not).
+func Confirm[C any](run func(C) string, times int) func(C) string {
+	return func(c C) string {
+		msg := run(c)
+		if msg == "" {
+			return ""
+		}
+		for i := 0; i < times; i++ {
+			if m2 := run(c); m2 == "" {
+				R.Label("confirm", "failure-not-reproduced")
+				return ""
+			}
+		}
+		return msg
+	}
+}
